@@ -67,3 +67,24 @@ Proof. exact tables_symmetric. Qed.
 Theorem C06_ops_commute :
   forall (o : operation) (a b : bool), o <> Difference -> sem o a b = sem o b a.
 Proof. exact ops_commute. Qed.
+
+(** the empty-operand laws hold for the bit-exact binary64 and binary32 models of the code
+    (the order laws are proved for SpecFloat comparisons on all non-NaN values, NumLawsB):
+    every coordinate non-NaN and below +infinity *)
+From Coq Require Import ZArith.
+From GB Require Import NumB NumLawsB.
+Theorem C06_empty_clipping_f64 :
+  forall (cfg : config) (fuel : nat), c_noshort cfg = false ->
+  forall (A : list (FillQueue.polygon NB64)) (op : operation), xfin_polys (finL (NB_laws 53 1024)) A ->
+  boolean_operation cfg fuel A nil op = Ok (trivial_result A nil op).
+Proof. exact (@empty_r_trivial_L NB64 (NB_laws 53 1024)). Qed.
+Theorem C06_empty_subject_f64 :
+  forall (cfg : config) (fuel : nat), c_noshort cfg = false ->
+  forall (A : list (FillQueue.polygon NB64)) (op : operation), xfin_polys (finL (NB_laws 53 1024)) A ->
+  boolean_operation cfg fuel nil A op = Ok (trivial_result nil A op).
+Proof. exact (@empty_l_trivial_L NB64 (NB_laws 53 1024)). Qed.
+Theorem C06_empty_clipping_f32 :
+  forall (cfg : config) (fuel : nat), c_noshort cfg = false ->
+  forall (A : list (FillQueue.polygon NB32)) (op : operation), xfin_polys (finL (NB_laws 24 128)) A ->
+  boolean_operation cfg fuel A nil op = Ok (trivial_result A nil op).
+Proof. exact (@empty_r_trivial_L NB32 (NB_laws 24 128)). Qed.
